@@ -3,6 +3,17 @@
 CRYPTO_NOTE = "cryptographic primitives are parameters of the model; assumptions about them are explicit theorem hypotheses"
 
 PROPS = {
+    "C06": {
+        "rule": "two concurrent real sessions; from every synchronised state (saved and reloaded through stringify/parse) each fresh honest message of either direction is delivered as: single-bit flips of the ciphertext "
+                "(boundary + sampled positions; thorough: every bit), truncations and extension re-wrapped as SessionData, every earlier message of the direction (replay/reorder), every message of the other direction (reflection), "
+                "the other session's messages with the same counters, mutated/truncated SessionData wrappers, and finally the honest message. Distinct by operation line text",
+        "xlate_items": ["get_initialization_vector"],
+        "trusted_base": ["hand-written session model (symbolic ciphertexts) tied by correspondence", "AEAD integrity of AES-256-GCM: `accepts` in Model/Session.lean is the assumption Crypto.Ideal"],
+        "level_text": "Lean theorems: a ciphertext is accepted iff it is the peer's next message of this session, unmodified (given AEAD integrity, stated as the symbolic `accepts`); every other ciphertext - tampered, other session, reflected, any counter but the next - gives a decryption error; a rejection leaves state, encryption counter and prepared responses untouched and yields no payload; the receive counter only moves forward. Tied by correspondence on adversarial deliveries in both directions plus the Spec predicate on the real outcomes.",
+        "level_note": "Trusted: Lean kernel; AEAD integrity (hypothesis built into the symbolic message model); model validated on real sessions incl. outcome, state and counters after every delivery.",
+        "technique": "Lean 4 proof (decision logic) over symbolic AEAD + adversarial correspondence",
+        "assumptions": ["AES-256-GCM integrity (no forgery, key/IV binding)"],
+    },
     "C07": {
         "rule": "(a) get_initialization_vector on boundary counters + random counters, both directions, against the regenerated Lean definition and the ISO predicate; "
                 "(b) random interleavings of new_request / handle_request (honest, replayed, tampered, garbage, no-data, malformed plaintext) / prepare / get_next / submit / response_ready / "
